@@ -32,14 +32,21 @@ import shutil
 import subprocess
 import sys
 import tempfile
+import threading
 import time
-from concurrent.futures import ThreadPoolExecutor
+from concurrent.futures import ThreadPoolExecutor, as_completed
 
 VERIF = os.path.dirname(os.path.dirname(os.path.abspath(__file__)))
 REPO = os.environ.get('VERIF_REPO', '/repo')
 PY = os.path.join(VERIF, '.venv', 'bin', 'python')
 NPROC = int(os.environ.get('VERIF_NPROC', '16'))
 OUT = os.environ.get('VERIF_OUT') or VERIF     # where evidence/ and replays/ are written (mutant runs use a scratch dir)
+# VERIF_FAILFAST=1 (used by ./muttest only): stop exploring as soon as one counterexample has been replayed natively.
+# The registered quick/thorough commands never set it: on the unchanged tree every slice is always explored.
+FAILFAST = bool(os.environ.get('VERIF_FAILFAST'))
+_STOP = threading.Event()
+_PROCS = set()
+_PLOCK = threading.Lock()
 
 WRAPPER = '''\
 import {hmod} as H
@@ -145,26 +152,65 @@ def child_env(hashseed=None):
 
 
 def run_job(job):
+    if _STOP.is_set():
+        return {'id': job['id'], 'kind': job['kind'], 'skipped': True, 'job': job}
     jf = os.path.join(job['workdir'], job['id'] + '.job.json')
     json.dump(job, open(jf, 'w'))
     t0 = time.time()
+    p = subprocess.Popen([PY, '-m', 'vt.worker', jf], stdout=subprocess.PIPE, stderr=subprocess.PIPE,
+                         text=True, env=child_env(job.get('hashseed')), cwd=VERIF)
+    with _PLOCK:
+        _PROCS.add(p)
     try:
-        p = subprocess.run([PY, '-m', 'vt.worker', jf], capture_output=True,
-                           text=True, timeout=job['timeout'] + 120,
-                           env=child_env(job.get('hashseed')), cwd=VERIF)
-        lines = [ln for ln in p.stdout.splitlines() if ln.startswith('{')]
-        res = json.loads(lines[-1]) if lines else {
-            'id': job['id'], 'kind': job['kind'],
-            'crash': 'no output; stderr: ' + p.stderr[-2000:]}
+        out, err = p.communicate(timeout=job['timeout'] + 120)
+        lines = [ln for ln in out.splitlines() if ln.startswith('{')]
+        if lines:
+            res = json.loads(lines[-1])
+        elif _STOP.is_set():
+            res = {'id': job['id'], 'kind': job['kind'], 'skipped': True}
+        else:
+            res = {'id': job['id'], 'kind': job['kind'],
+                   'crash': 'no output; stderr: ' + err[-2000:]}
     except subprocess.TimeoutExpired:
+        p.kill()
+        p.communicate()
         res = {'id': job['id'], 'kind': job['kind'], 'crash': 'hard timeout'}
+    finally:
+        with _PLOCK:
+            _PROCS.discard(p)
     res['job'] = job
     res.setdefault('wall_s', round(time.time() - t0, 2))
     return res
 
 
+def stop_all():
+    _STOP.set()
+    with _PLOCK:
+        for p in list(_PROCS):
+            try:
+                p.kill()
+            except OSError:
+                pass
+
+
+def counterexample_of(res, h):
+    """-> (vec, call_args, message) parsed from a refuted verify job, or None."""
+    msg = next(m for m in res['messages'] if m['state'] in ('POST_FAIL', 'EXEC_ERR', 'POST_ERR'))
+    parsed = parse_call(msg['message'])
+    if parsed is None:
+        return None
+    a, kw = parsed
+    names = [n for n, _t in h['params']]
+    vec = dict(zip(names, a))
+    vec.update(kw)
+    call_args = eval('(lambda *a: list(a))(%s)' % h['call'], dict(vec))
+    return vec, call_args, msg['message']
+
+
 def classify(res):
     """-> 'confirmed' | 'refuted' | 'unknown' | 'crash'"""
+    if res.get('skipped'):
+        return 'skipped'
     if 'crash' in res:
         return 'crash'
     states = [m['state'] for m in res.get('messages', [])]
@@ -244,8 +290,19 @@ def check_property(prop, tier='quick', only=None, verbose=True):
                                  verif=VERIF, timeout=120, path_timeout=120))
         # longest first
         jobs.sort(key=lambda j: (j['kind'] != 'verify', -j['timeout']))
+        hmap0 = {h['name']: h for h in SPEC['harnesses']}
         with ThreadPoolExecutor(NPROC) as ex:
-            results = list(ex.map(run_job, jobs))
+            futs = [ex.submit(run_job, j) for j in jobs]
+            if FAILFAST:
+                for f in as_completed(futs):
+                    r = f.result()
+                    if r['job']['kind'] == 'verify' and classify(r) == 'refuted' and not _STOP.is_set():
+                        ce = counterexample_of(r, hmap0[r['job']['harness']])
+                        if ce is not None:
+                            r['_native'] = native_run(hmodname, hmap0[r['job']['harness']]['fn'], ce[1])
+                            if r['_native'].get('ok') is False:
+                                stop_all()
+            results = [f.result() for f in futs]
     finally:
         shutil.rmtree(workdir, ignore_errors=True)
 
@@ -262,28 +319,25 @@ def check_property(prop, tier='quick', only=None, verbose=True):
                    wall_s=r.get('wall_s'), n_summaries=r.get('n_summaries', 0),
                    pres=j.get('pres'))
         per_job.append(rec)
+        if c == 'skipped':
+            continue
         if c == 'crash':
             errors.append('%s: worker crash: %s' % (j['id'], (r.get('crash') or str(r.get('messages')))[-1500:]))
             continue
         if j['kind'] == 'verify':
             if c == 'refuted':
-                msg = next(m for m in r['messages'] if m['state'] in ('POST_FAIL', 'EXEC_ERR', 'POST_ERR'))
-                rec['message'] = msg['message'][:600]
-                parsed = parse_call(msg['message'])
-                if parsed is None:
-                    errors.append('%s: cannot parse counterexample: %s' % (j['id'], msg['message'][:400]))
+                ce = counterexample_of(r, h)
+                rec['message'] = next(m for m in r['messages'] if m['state'] in ('POST_FAIL', 'EXEC_ERR', 'POST_ERR'))['message'][:600]
+                if ce is None:
+                    errors.append('%s: cannot parse counterexample: %s' % (j['id'], rec['message'][:400]))
                     continue
-                a, kw = parsed
-                names = [n for n, _t in h['params']]
-                vec = dict(zip(names, a))
-                vec.update(kw)
-                call_args = eval('(lambda *a: list(a))(%s)' % h['call'], dict(vec))
-                nat = native_run(hmodname, h['fn'], call_args)
+                vec, call_args, message = ce
+                nat = r.get('_native') or native_run(hmodname, h['fn'], call_args)
                 native_execs += 1
                 rec['counterexample'] = vec
                 rec['native'] = nat
                 if nat.get('ok') is False:
-                    rp = write_replay(prop, hmodname, h, vec, call_args, nat, msg['message'])
+                    rp = write_replay(prop, hmodname, h, vec, call_args, nat, message)
                     violations.append((h['name'], vec, rp))
                 else:
                     errors.append('%s: counterexample %r does not reproduce natively (%r)' % (j['id'], vec, nat))
